@@ -46,6 +46,12 @@ Qed.
 Lemma zsort_sorted l : zsorted (zsort l).
 Proof. induction l as [|a r IH]; cbn; [exact I|apply zinsert_sorted; exact IH]. Qed.
 
+Lemma zsort_nil vs : zsort vs = [] -> vs = [].
+Proof.
+  destruct vs as [|a r]; [reflexivity|]. intros H. exfalso.
+  assert (In a (zsort (a :: r))) as Hin by (apply zsort_in; left; reflexivity). rewrite H in Hin. exact Hin.
+Qed.
+
 Lemma zcount_nonneg f l : 0 <= zcount f l.
 Proof. induction l as [|a r IH]; cbn [zcount]; [lia|destruct (f a); lia]. Qed.
 
